@@ -13,7 +13,7 @@ EXPLANATION = (
     'unquote(quote(s, safe)) == s iff "%" not in safe, lifted to which functions and '
     'constants are wired; (R03.2) the written buffer folds to "[Trash Info]\\nPath=" '
     '<quote> "\\nDeletionDate=" <strftime> "\\n" encoded as UTF-8, holes ASCII-only; '
-    '(R03.3) strftime format == strptime format minus the key == %Y-%m-%dT%H:%M:%S, '
+    '(R03.3) strftime format == strptime format minus the key == %Y-%m-%dT%H:%M:%S, applied to the clock reading itself (no arithmetic on it), '
     'first-match semantics for both keys; (R03.4) key literals of the template equal the '
     'prefixes the readers test and the slice offsets equal their lengths.  The law for '
     'all strings itself is delegated to the stdlib algebra (trusted).')
@@ -86,6 +86,20 @@ def check(ctx):
                 writer_fmt = strip(d.args[0]).value
             ctx.ob('R03.3', 'DeletionDate is written with strftime(%s)' % DATEFMT, okd, node=w,
                    message='the DeletionDate value is %s' % short(d, 80))
+            # ... of the clock value itself: arithmetic on it (rounding up, an offset,
+            # a zone shift by hand) records another instant than the one of trashing
+            if isinstance(d, MCall) and d.name == 'strftime':
+                shifted = [x for a in flat(d.recv) for x in walk(a)
+                           if (isinstance(x, Bin) and x.op in ('+', '-')) or
+                           (isinstance(x, Call) and x.fn.endswith('timedelta')) or
+                           (isinstance(x, MCall) and x.name in ('astimezone', '__add__',
+                                                                '__sub__'))]
+                ctx.ob('R03.3', 'the value formatted is the clock reading, not a shifted one',
+                       not shifted, node=w,
+                       message='the DeletionDate written is %s: the time of trashing moved '
+                               'by an offset (an entry trashed at 23:59:59.7 is dated the '
+                               'next day/year; list and restore sort and show that date)'
+                               % short(d.recv, 120))
 
     # ---- R03.5 what is recorded for relative candidates: a prefix slice at a boundary
     for w in r.writes:
